@@ -99,4 +99,230 @@ theorem wrap2_neg (a w : Rat) (hw : w < 0) :
     exact (pymod_unique_pos (pymod a (w * 2) - w) (-w) (pymod a (w * 2) - w * 2) (-1)
       (by grind) (by grind) (by grind) (by grind)).symm
 
+
+/-! ## rounding to binary64 preserves sign and zero -/
+
+
+theorem two_pow_pos_rat (k : Nat) : (0 : Rat) < ((2 ^ k : Nat) : Rat) :=
+  Rat.natCast_pos.2 (Nat.pow_pos (by omega))
+
+theorem scale2_pos {y : Rat} (e : Int) (h : 0 < y) : 0 < scale2 y e := by
+  unfold scale2
+  split
+  · exact Rat.mul_pos h (two_pow_pos_rat _)
+  · rw [Rat.div_def]; exact Rat.mul_pos h (Rat.inv_pos.2 (two_pow_pos_rat _))
+
+theorem roundEven_pos {m : Rat} (h : 1 ≤ m) : 0 < roundEven m := by
+  have hf : 1 ≤ m.floor := Rat.le_floor_iff.2 (by simpa using h)
+  unfold roundEven
+  simp only []
+  split
+  · omega
+  · split
+    · omega
+    · split <;> omega
+
+/-- a positive rational scaled by `2^t` is at least 1 as soon as `t` compensates the size gap of
+denominator and numerator -/
+theorem one_le_scale2 (x : Rat) (hx : 0 < x) (t : Int)
+    (ht : (Nat.log2 x.den : Int) + 1 ≤ (Nat.log2 x.num.toNat : Int) + t) : 1 ≤ scale2 x t := by
+  have hnum : 0 < x.num := by
+    have h1 : 0 ≤ x.num := Rat.num_nonneg.2 (Rat.le_of_lt hx)
+    have h2 : x.num ≠ 0 := fun e => by
+      have := Rat.num_eq_zero.1 e; rw [this] at hx; exact absurd hx (by decide)
+    omega
+  have hden : 0 < x.den := x.den_pos
+  have hxe : x = ((x.num.toNat : Nat) : Rat) / ((x.den : Nat) : Rat) := by
+    have h1 := Rat.mkRat_self x
+    rw [Rat.mkRat_eq_div] at h1
+    have : ((x.num.toNat : Nat) : Rat) = ((x.num : Int) : Rat) := by
+      rw [← Rat.intCast_natCast]; congr 1; omega
+    rw [this]; exact h1.symm
+  have hn0 : x.num.toNat ≠ 0 := by omega
+  have hlp := Nat.log2_self_le hn0
+  have hlq := @Nat.lt_log2_self x.den
+  generalize x.num.toNat = N at *
+  generalize x.den = D at *
+  have hD : (0 : Rat) < (D : Rat) := Rat.natCast_pos.2 hden
+  unfold scale2
+  split
+  · next h0 =>
+    -- x * 2^k ≥ 1  ⟸  D ≤ N * 2^k
+    have hk : Nat.log2 D + 1 ≤ Nat.log2 N + t.toNat := by omega
+    have hnat : D ≤ N * 2 ^ t.toNat := by
+      calc D ≤ 2 ^ (Nat.log2 D + 1) := Nat.le_of_lt hlq
+        _ ≤ 2 ^ (Nat.log2 N + t.toNat) := Nat.pow_le_pow_right (by omega) hk
+        _ = 2 ^ Nat.log2 N * 2 ^ t.toNat := Nat.pow_add ..
+        _ ≤ N * 2 ^ t.toNat := Nat.mul_le_mul_right _ hlp
+    have hr : (D : Rat) ≤ (N : Rat) * ((2 ^ t.toNat : Nat) : Rat) := by
+      rw [← Rat.natCast_mul]; exact Rat.natCast_le_natCast.2 hnat
+    rw [hxe]
+    have : (N : Rat) / (D : Rat) * ((2 ^ t.toNat : Nat) : Rat)
+        = ((N : Rat) * ((2 ^ t.toNat : Nat) : Rat)) / (D : Rat) := by
+      rw [Rat.div_def, Rat.div_def]; grind
+    rw [this]
+    apply Rat.not_lt.1
+    rw [Rat.div_lt_iff hD]
+    apply Rat.not_lt.2
+    simpa using hr
+  · next h0 =>
+    have hk : Nat.log2 D + 1 + (-t).toNat ≤ Nat.log2 N := by omega
+    have hnat : D * 2 ^ (-t).toNat ≤ N := by
+      calc D * 2 ^ (-t).toNat ≤ 2 ^ (Nat.log2 D + 1) * 2 ^ (-t).toNat :=
+            Nat.mul_le_mul_right _ (Nat.le_of_lt hlq)
+        _ = 2 ^ (Nat.log2 D + 1 + (-t).toNat) := (Nat.pow_add ..).symm
+        _ ≤ 2 ^ Nat.log2 N := Nat.pow_le_pow_right (by omega) hk
+        _ ≤ N := hlp
+    have hr : (D : Rat) * ((2 ^ (-t).toNat : Nat) : Rat) ≤ (N : Rat) := by
+      rw [← Rat.natCast_mul]; exact Rat.natCast_le_natCast.2 hnat
+    have hP := two_pow_pos_rat (-t).toNat
+    rw [hxe]
+    apply Rat.not_lt.1
+    rw [Rat.div_lt_iff hP, Rat.div_lt_iff hD]
+    apply Rat.not_lt.2
+    have : (1 : Rat) * ((2 ^ (-t).toNat : Nat) : Rat) * (D : Rat) = (D : Rat) * ((2 ^ (-t).toNat : Nat) : Rat) := by
+      grind
+    rw [this]; exact hr
+
+theorem rnPos_pos (x : Rat) (hx : 0 < x) : 0 < rnPos x := by
+  unfold rnPos
+  simp only []
+  apply scale2_pos
+  apply Rat.intCast_pos.2
+  apply roundEven_pos
+  apply one_le_scale2 x hx
+  split <;> omega
+
+theorem rn_eq_zero_iff (x : Rat) : rn x = 0 ↔ x = 0 := by
+  constructor
+  · intro h
+    apply Classical.byContradiction
+    intro hx
+    unfold rn at h
+    simp only [hx, if_false] at h
+    split at h
+    · next hneg =>
+      have := rnPos_pos (-x) (by grind)
+      grind
+    · next hneg =>
+      have := rnPos_pos x (by grind)
+      grind
+  · intro h; subst h; simp [rn]
+
+
+
+
+/-! ## powers of two with integer exponent -/
+
+def pow2 (e : Int) : Rat := (2 : Rat) ^ e
+
+theorem pow2_pos (e : Int) : 0 < pow2 e := Rat.zpow_pos (by decide)
+
+theorem pow2_add (a b : Int) : pow2 (a + b) = pow2 a * pow2 b :=
+  Rat.zpow_add (by decide) a b
+
+theorem pow2_zero : pow2 0 = 1 := Rat.zpow_zero _
+
+theorem pow2_nat (k : Nat) : pow2 (k : Int) = ((2 ^ k : Nat) : Rat) := by
+  unfold pow2
+  rw [Rat.zpow_natCast, Rat.natCast_pow]; rfl
+
+theorem one_le_pow2_nat (k : Nat) : 1 ≤ pow2 (k : Int) := by
+  rw [pow2_nat]
+  have : 1 ≤ 2 ^ k := Nat.one_le_two_pow
+  have := Rat.natCast_le_natCast.2 this
+  simpa using this
+
+theorem pow2_mono {a b : Int} (h : a ≤ b) : pow2 a ≤ pow2 b := by
+  obtain ⟨k, hk⟩ : ∃ k : Nat, b = a + k := ⟨(b - a).toNat, by omega⟩
+  rw [hk, pow2_add]
+  have h1 := one_le_pow2_nat k
+  have h2 := pow2_pos a
+  have := Rat.mul_le_mul_of_nonneg_left h1 (Rat.le_of_lt h2)
+  rw [Rat.mul_one] at this; exact this
+
+theorem pow2_neg_mul (e : Int) : pow2 (-e) * pow2 e = 1 := by
+  rw [← pow2_add, Int.add_left_neg, pow2_zero]
+
+theorem scale2_eq (x : Rat) (e : Int) : scale2 x e = x * pow2 e := by
+  unfold scale2
+  split
+  · next h =>
+    have : e = (e.toNat : Int) := by omega
+    have hp : pow2 e = ((2 ^ e.toNat : Nat) : Rat) := by
+      conv => lhs; rw [this]
+      exact pow2_nat _
+    rw [hp]
+  · next h =>
+    have he : e = -((-e).toNat : Int) := by omega
+    have hp := pow2_neg_mul ((-e).toNat : Int)
+    rw [← he, pow2_nat] at hp
+    have hpos := two_pow_pos_rat (-e).toNat
+    rw [Rat.div_def]
+    congr 1
+    exact Rat.inv_eq_of_mul_eq_one (by rw [Rat.mul_comm]; exact hp)
+
+
+
+
+/-! ## roundEven -/
+
+theorem roundEven_cases (m : Rat) : roundEven m = m.floor ∨ roundEven m = m.floor + 1 := by
+  unfold roundEven
+  simp only []
+  split
+  · left; rfl
+  · split
+    · right; rfl
+    · split
+      · left; rfl
+      · right; rfl
+
+/-- the result is within one half of the argument -/
+theorem roundEven_near (m : Rat) :
+    (roundEven m : Rat) - 1 / 2 ≤ m ∧ m ≤ (roundEven m : Rat) + 1 / 2 := by
+  have h1 := Rat.floor_le m
+  have h2 := Rat.lt_floor_add_one m
+  rw [Rat.intCast_add] at h2
+  unfold roundEven
+  simp only []
+  split
+  · next h => constructor <;> grind
+  · next h =>
+    split
+    · next h' => rw [Rat.intCast_add]; constructor <;> grind
+    · next h' =>
+      have he : m - (m.floor : Rat) = 1 / 2 := by grind
+      split
+      · constructor <;> grind
+      · rw [Rat.intCast_add]; constructor <;> grind
+
+theorem le_roundEven {m : Rat} {n : Int} (h : (n : Rat) ≤ m) : n ≤ roundEven m := by
+  have hf : n ≤ m.floor := Rat.le_floor_iff.2 h
+  rcases roundEven_cases m with e | e <;> omega
+
+theorem roundEven_le {m : Rat} {n : Int} (h : m ≤ (n : Rat)) : roundEven m ≤ n := by
+  by_cases heq : m = (n : Rat)
+  · subst heq
+    unfold roundEven
+    simp only [Rat.floor_intCast]
+    have : (n : Rat) - (n : Rat) < 1 / 2 := by grind
+    simp [this]
+  · have hlt : m < (n : Rat) := by grind
+    have hf : m.floor < n := Rat.floor_lt_iff.2 hlt
+    rcases roundEven_cases m with e | e <;> omega
+
+theorem roundEven_mono {a b : Rat} (h : a ≤ b) : roundEven a ≤ roundEven b := by
+  apply Classical.byContradiction
+  intro hc
+  have hlt : roundEven b + 1 ≤ roundEven a := by omega
+  have hlt' : ((roundEven b + 1 : Int) : Rat) ≤ (roundEven a : Rat) := Rat.intCast_le_intCast.2 hlt
+  rw [Rat.intCast_add] at hlt'
+  have ha := roundEven_near a
+  have hb := roundEven_near b
+  have hab : a = b := by grind
+  subst hab
+  omega
+
+
 end Ioflo.Wrap
